@@ -135,6 +135,17 @@ func (c12) Gen(tier string, seed int64, emit0 func([]Ev)) {
 				calls = append(calls, Ev{"f": flagOps[r.Intn(len(flagOps))], "b": r.Intn(4) != 0})
 			}
 		}
+		if i%10 == 0 {
+			// the partition flag asked to be false on an EBP that has the extension flag: it must stay clear
+			for k := range calls {
+				if GS(calls[k]["f"]) == "SetPartitionFlag" {
+					calls[k]["b"] = false
+				}
+			}
+			calls = append([]Ev{{"f": "SetExtensionFlag", "b": true}}, calls...)
+			at := 1 + r.Intn(len(calls))
+			calls = append(calls[:at:at], append([]Ev{{"f": "SetPartitionFlag", "b": false}}, calls[at:]...)...)
+		}
 		emit([]Ev{{"op": "build", "cablelabs": i%2 == 0, "calls": calls}})
 	}
 	// time round trip over the whole representable range, nanosecond boundary values
